@@ -598,6 +598,61 @@ def branch_targets(body, call, variant_values):
     return out
 
 
+def const_case_edges(body, consts):
+    """Edges of the CFG that are taken exactly when some scrutinee equals one of the integer constants `consts`:
+    `switch x [K => T, ..]` arms, and the true/false arm of a bool switch on `x == K` / `x != K`. Independent of the source
+    spelling (match arm, `if x == K`, `matches!`). Returns {K: [(src_bb, dst_bb)]}."""
+    want = {str(k) for k in consts}
+    out = {str(k): [] for k in consts}
+    for bi, blk in enumerate(body.blocks):
+        t = blk["term"]
+        if not t or t["t"] != "switch" or bi not in body.reachable or blk.get("cleanup"):
+            continue
+        p = op_place(t["discr"])
+        cmp_ = None
+        if p is not None and not p.get("p"):
+            for l in _local_copies_back(body, p["l"], 4):
+                for bj, sj, dpl, src in body.defs.get(l, []):
+                    kind, v = src
+                    if kind == "rv" and v["k"] == "bin" and v["op"] in ("Eq", "Ne"):
+                        for side in ("a", "b"):
+                            c = op_const(v[side])
+                            if c is not None and "int" in c and str(c["int"]) in want:
+                                cmp_ = (v["op"], str(c["int"]))
+        if cmp_ is not None:
+            arms = {v: tb for v, tb in t["arms"]}
+            false_t = arms.get("0")
+            true_t = arms.get("1", t["otherwise"]) if "0" in arms or "1" in arms else None
+            if false_t is None and "1" in arms:
+                false_t = t["otherwise"]
+            tgt = true_t if cmp_[0] == "Eq" else false_t
+            if tgt is not None:
+                out[cmp_[1]].append((bi, tgt))
+            continue
+        if p is not None and not p.get("p") and body.locals[p["l"]]["ty"] == "bool":
+            continue
+        others = {tb for v, tb in t["arms"] if v not in want} | {t["otherwise"]}
+        for v, tb in t["arms"]:
+            if v in want and tb not in others:
+                out[v].append((bi, tb))
+    return out
+
+
+def reach_without_edges(body, start, removed):
+    """blocks reachable from `start` when the CFG edges in `removed` (set of (src, dst)) are not taken"""
+    removed = set(removed)
+    seen = {start}
+    work = [start]
+    while work:
+        n = work.pop()
+        for s in body.succ[n]:
+            if (n, s) in removed or s in seen or body.blocks[s].get("cleanup"):
+                continue
+            seen.add(s)
+            work.append(s)
+    return seen
+
+
 def all_paths_pass(body, src_bb, through, targets=None):
     """True iff every real path from the *end* of src_bb to any block in `targets` (default: function exits)
     passes through a block in `through`."""
